@@ -471,12 +471,22 @@ theorem replace_layout (A : Bytes) (m : List Slot) (post : List Page) (c1 cK : P
 
 /-! ### the layout of a multiplexed file around the comment packet -/
 
+/-- Vorbis and Theora: `h` is the first page in front of the run whose first packet starts with the
+identification magic (the stream the tags were loaded from); the run's first page `c1` belongs to
+that stream and starts with the comment magic; no page of that stream between `h` and the run does
+(pages of other streams may: a second Vorbis / Theora stream in the file is not touched) -/
+def IdThenCommentOK (idMagic commentMagic : Bytes) (pre : List Page) (c1 : Page) : Prop :=
+  ∃ pre1 h pre2, pre = pre1 ++ h :: pre2 ∧ (∀ p ∈ pre1, startsWith idMagic p = false) ∧
+    startsWith idMagic h = true ∧
+    (∀ p ∈ pre2, p.serial = h.serial → startsWith commentMagic p = false) ∧
+    c1.serial = h.serial ∧ startsWith commentMagic c1 = true
+
 /-- what makes the codec's `_inject` take `c1` (the page behind `pre`) as the first page of the
 comment packet -/
 def StartOK (c : Codec) (pre : List Page) (c1 : Page) : Prop :=
   match c with
-  | .vorbis => (∀ p ∈ pre, startsWith magicVorbisComment p = false) ∧ startsWith magicVorbisComment c1 = true
-  | .theora => (∀ p ∈ pre, startsWith magicTheoraComment p = false) ∧ startsWith magicTheoraComment c1 = true
+  | .vorbis => IdThenCommentOK magicVorbisId magicVorbisComment pre c1
+  | .theora => IdThenCommentOK magicTheoraId magicTheoraComment pre c1
   | .opus => ∃ pre1 h pre2, pre = pre1 ++ h :: pre2 ∧ (∀ p ∈ pre1, startsWith magicOpusHead p = false) ∧
       startsWith magicOpusHead h = true ∧ h.first = true ∧ 19 ≤ (h.packets.headD []).length ∧
       ((h.packets.headD []).getD 8 0).toNat / 16 = 0 ∧
@@ -487,6 +497,61 @@ def StartOK (c : Codec) (pre : List Page) (c1 : Page) : Prop :=
   | .flac => ∃ pre1 h pre2, pre = pre1 ++ h :: pre2 ∧ (∀ p ∈ pre1, startsWith magicFlac p = false) ∧
       startsWith magicFlac h = true ∧ h.sequence ≠ 1 ∧ (∀ p ∈ pre2, ¬ (p.sequence = 1 ∧ p.serial = h.serial)) ∧
       c1.sequence = 1 ∧ c1.serial = h.serial
+
+theorem vorbis_magics_disjoint (p : Page) (h : startsWith magicVorbisId p = true) :
+    startsWith magicVorbisComment p = false := by
+  unfold startsWith at *
+  cases hp : p.packets with
+  | nil => rfl
+  | cons x r =>
+    rw [hp] at h
+    cases x with
+    | nil => simp [magicVorbisComment]
+    | cons a b =>
+      simp only [magicVorbisId, List.isPrefixOf, Bool.and_eq_true, beq_iff_eq] at h
+      simp only [magicVorbisComment, List.isPrefixOf]
+      rw [← h.1]; rfl
+
+theorem theora_magics_disjoint (p : Page) (h : startsWith magicTheoraId p = true) :
+    startsWith magicTheoraComment p = false := by
+  unfold startsWith at *
+  cases hp : p.packets with
+  | nil => rfl
+  | cons x r =>
+    rw [hp] at h
+    cases x with
+    | nil => simp [magicTheoraComment]
+    | cons a b =>
+      simp only [magicTheoraId, List.isPrefixOf, Bool.and_eq_true, beq_iff_eq] at h
+      simp only [magicTheoraComment, List.isPrefixOf]
+      rw [← h.1]; rfl
+
+theorem idThenComment_layout (idMagic commentMagic : Bytes)
+    (hdisj : ∀ p, startsWith idMagic p = true → startsWith commentMagic p = false)
+    (pre : List Page) (c1 : Page) (R f : Bytes) (hpre : ∀ p ∈ pre, Good p) (hc1 : Good c1)
+    (hs : IdThenCommentOK idMagic commentMagic pre c1) (hf : renderPages pre ++ rb c1 ++ R = f) :
+    idThenComment f idMagic commentMagic =
+      .ok (⟨c1, (renderPages pre).length⟩, (renderPages pre).length + c1.size) := by
+  have hfl : pre.length < f.length + 1 := by
+    rw [← hf]; have := length_renderPages_ge pre
+    simp only [List.length_append]; omega
+  obtain ⟨pre1, h, pre2, rfl, h1, h2, h3, h4, h5⟩ := hs
+  have hgh : Good h := hpre h (by simp)
+  have s1 := scanFrom_pages f (startsWith idMagic) pre1 h [] (renderPages pre2 ++ rb c1 ++ R) (f.length + 1)
+    (by rw [← hf]; simp [renderPages_append, List.append_assoc])
+    (fun p hp => ⟨hpre p (by simp [hp]), h1 p hp⟩) hgh h2 (by simp at hfl; omega)
+  simp only [List.length_nil, Nat.zero_add] at s1
+  have s2 := scanFrom_pages f (fun p => decide (p.serial = h.serial) && startsWith commentMagic p) pre2 c1
+    (renderPages pre1 ++ rb h) R (f.length + 1)
+    (by rw [← hf]; simp [renderPages_append, List.append_assoc])
+    (fun p hp => ⟨hpre p (by simp [hp]), by
+      by_cases hser : p.serial = h.serial
+      · simp [hser, h3 p hp hser]
+      · simp [hser]⟩) hc1 (by simp [h4, h5]) (by simp at hfl; omega)
+  simp only [List.length_append, length_rb] at s2
+  simp only [idThenComment, s1, hdisj h h2, Bool.and_false, Bool.false_eq_true, ↓reduceIte, s2,
+    renderPages_append, renderPages_cons, List.length_append, length_rb]
+  congr 3 <;> omega
 
 theorem findStart_layout (c : Codec) (pre : List Page) (c1 : Page) (R : Bytes) (hpre : ∀ p ∈ pre, Good p) (hc1 : Good c1)
     (hs : StartOK c pre c1) :
@@ -501,13 +566,11 @@ theorem findStart_layout (c : Codec) (pre : List Page) (c1 : Page) (R : Bytes) (
     rw [← hf]; have := hfuel pre [] (rb c1 ++ R); simpa [List.append_assoc] using this
   cases c with
   | vorbis =>
-    have := scanFrom_pages f (startsWith magicVorbisComment) pre c1 [] R (f.length + 1) (by simp [hf])
-      (fun p hp => ⟨hpre p hp, hs.1 p hp⟩) hc1 hs.2 hfl
-    simpa [findStart] using this
+    simp only [findStart]
+    exact idThenComment_layout _ _ vorbis_magics_disjoint pre c1 R f hpre hc1 hs hf
   | theora =>
-    have := scanFrom_pages f (startsWith magicTheoraComment) pre c1 [] R (f.length + 1) (by simp [hf])
-      (fun p hp => ⟨hpre p hp, hs.1 p hp⟩) hc1 hs.2 hfl
-    simpa [findStart] using this
+    simp only [findStart]
+    exact idThenComment_layout _ _ theora_magics_disjoint pre c1 R f hpre hc1 hs hf
   | opus =>
     obtain ⟨pre1, h, pre2, rfl, h1, h2, h3, h4, h5, h6, h7, h8⟩ := hs
     have hgh : Good h := hpre h (by simp)
@@ -2918,8 +2981,8 @@ theorem layout_ok : layout.OK .vorbis := by
     exact ⟨g3, rfl, by simp⟩
   · exact ⟨rfl, rfl⟩
   · intro p hp; simp [layout] at hp; rcases hp with rfl | rfl <;> assumption
-  · refine ⟨?_, by decide⟩
-    intro p hp; simp [layout] at hp; rcases hp with rfl | rfl <;> decide
+  · exact ⟨[], idPage, [otherFirst], rfl, by simp, by decide,
+      by intro p hp; simp at hp; subst hp; decide, rfl, by decide⟩
 
 theorem layout_stream : layout.StreamOK := by
   refine ⟨rfl, ?_, ?_⟩
@@ -2982,8 +3045,8 @@ theorem layout2_ok : layout2.OK .vorbis := by
     · exact ⟨gc2, rfl, by simp⟩
   · exact ⟨rfl, rfl, rfl⟩
   · intro p hp; simp [layout2] at hp; rcases hp with rfl | rfl <;> assumption
-  · refine ⟨?_, by decide⟩
-    intro p hp; simp [layout2] at hp; rcases hp with rfl | rfl <;> decide
+  · exact ⟨[], idPage, [otherFirst], rfl, by simp, by decide,
+      by intro p hp; simp at hp; subst hp; decide, rfl, by decide⟩
 
 theorem layout2_stream : layout2.StreamOK := by
   refine ⟨rfl, ?_, ?_⟩
@@ -3034,5 +3097,71 @@ theorem save_inplace (c : Codec) (hc : c ≠ .flac) (L : Layout) (h : L.OK c) (h
   refine ⟨new, _, hnew, hl, hsz, rfl, ?_, b1, b2, b3⟩
   rw [hsave, hafter]
 
+theorem stream_others (a b : Nat) (hab : a ≠ b) (ps : List Page) : stream a (others b ps) = stream a ps := by
+  simp only [stream, others, List.filter_filter]
+  apply List.filter_congr
+  intro p _
+  by_cases h : p.serial = a
+  · simp [h, hab]
+  · simp [h]
+
+namespace Example
+
+/-! two Vorbis streams in one file, in the order A-identification, B-identification, B-comment,
+A-comment: the tags are loaded from stream A (serial 7), and stream A's comment run is the one
+`_inject` finds -/
+
+def idB : Page := { packets := [magicVorbisId ++ [0, 0, 0, 0, 1]], serial := 8, sequence := 0, first := true }
+def commentB : Page :=
+  { packets := [magicVorbisComment ++ [0, 0, 0, 0, 0, 0, 0, 0, 1], [5, 0x76, 0x6F, 0x72, 0x62, 0x69, 0x73, 1]], serial := 8, sequence := 1 }
+def audioB : Page := { packets := [[7, 7, 7]], serial := 8, sequence := 2, last := true, position := 64 }
+
+def layoutAB : Layout := { pre := [idPage, idB, commentB], slots := [(commentPage, [])], post := [audioB, audioPage] }
+
+theorem layoutAB_ok : layoutAB.OK .vorbis := by
+  obtain ⟨g1, _, g3, _, g5⟩ := good_all
+  have gb1 : Good idB := good_of_complete _ rfl (by decide) rfl (by unfold Renderable; decide)
+  have gb2 : Good commentB := good_of_complete _ rfl (by decide) rfl (by unfold Renderable; decide)
+  have gb3 : Good audioB := good_of_complete _ rfl (by decide) rfl (by unfold Renderable; decide)
+  refine ⟨?_, ?_, ?_, ?_, ?_⟩
+  · intro p hp; simp [layoutAB] at hp; rcases hp with rfl | rfl | rfl <;> assumption
+  · intro s hs; simp [layoutAB] at hs; subst hs
+    exact ⟨g3, rfl, by simp⟩
+  · exact ⟨rfl, rfl⟩
+  · intro p hp; simp [layoutAB] at hp; rcases hp with rfl | rfl <;> assumption
+  · exact ⟨[], idPage, [idB, commentB], rfl, by simp, by decide,
+      by intro p hp; simp at hp; rcases hp with rfl | rfl <;> decide, rfl, by decide⟩
+
+theorem layoutAB_stream : layoutAB.StreamOK := by
+  refine ⟨rfl, ?_, ?_⟩
+  · exact ⟨rfl, by simp [commentPage], trivial⟩
+  · show contOK _ (stream layoutAB.serial layoutAB.post)
+    have : stream layoutAB.serial layoutAB.post = [audioPage] := by decide
+    rw [this]
+    exact ⟨rfl, by simp [audioPage], trivial⟩
+
+theorem layoutAB_packets : toPackets layoutAB.oldPages false = .ok [commentPacket, setupPacket] := by decide +kernel
+
+/-- saving into that file (whatever comment, whatever padding choice, as long as the packet can be
+built): the save succeeds, stream B — both its comment page, which comes first in the file, and
+its other pages — is what it was, and stream A carries the new comment packet -/
+theorem layoutAB_edits_A (vc : Bytes) (pad : PadChoice) (new0 : Bytes) (new : List Page)
+    (hnp : newPacket .vorbis commentPacket vc [] pad layoutAB.render.length = .ok new0)
+    (hnew : newPages .vorbis [new0, setupPacket] layoutAB.oldPages = .ok new) (hn : new.length < 1000) :
+    save .vorbis layoutAB.render vc [] pad = .ok (renderPages (layoutAB.after new)) ∧
+      stream 8 (layoutAB.after new) = [idB, commentB, audioB] ∧
+      ∃ before behind, reasm [] (stream 7 layoutAB.pages) = before ++ commentPacket :: behind ∧
+        reasm [] (stream 7 (layoutAB.after new)) = before ++ new0 :: behind := by
+  have hpost : (layoutAB.post.filter (·.serial = layoutAB.serial)).length = 1 := by decide
+  have hc1 : layoutAB.c1.sequence = 1 := rfl
+  obtain ⟨h1, h2, h3⟩ := save_spec .vorbis layoutAB layoutAB_ok layoutAB_stream vc [] pad commentPacket new0
+    [setupPacket] new layoutAB_packets hnp hnew (by rw [hpost, hc1]; omega)
+  have hser : layoutAB.serial = 7 := rfl
+  rw [hser] at h2 h3
+  refine ⟨h1, ?_, h3⟩
+  rw [← stream_others 8 7 (by decide), h2, stream_others 8 7 (by decide)]
+  decide
+
+end Example
 
 end Mutagen.OggInj
